@@ -160,6 +160,10 @@ func (r *Run) Add(kind string, c json.RawMessage, res *Result) bool {
 		return false
 	}
 	for _, v := range res.Viol {
+		if len(v.Case) > 0 {
+			r.Violation(kind, v.Case, v.Class, v.Msg)
+			continue
+		}
 		r.Violation(kind, c, v.Class, v.Msg)
 	}
 	return true
